@@ -39,6 +39,8 @@ type Request struct {
 	Ops []string
 	// VarTypes maps every variable of the document to its declared type.
 	VarTypes map[string]string
+	// BadDefault marks the variables declared with a default that does not fit.
+	BadDefault map[string]bool
 }
 
 // DrawVars draws a fresh variable map for the document (values vary from call
@@ -51,6 +53,9 @@ func (r *Request) DrawVars(t *tape.Tape) map[string]interface{} {
 	}
 	sort.Strings(names)
 	for _, n := range names {
+		if r.BadDefault[n] && t.Bool(1, 2) {
+			continue
+		}
 		if t.Bool(1, 4) {
 			if _, has := r.Vars[n]; !has {
 				continue // has a default: leave it out
@@ -142,6 +147,10 @@ type ReqOpt struct {
 	// VarDirectivesInMeta puts @skip/@include with variables on selections
 	// beneath __schema / __type.
 	VarDirectivesInMeta bool
+	// BadDefaults now and then declares a variable with a default that does not
+	// fit its type (the document is accepted; a call that leaves the variable
+	// out fails, every time).
+	BadDefaults bool
 }
 
 type reqGen struct {
@@ -678,6 +687,29 @@ func GenRequest(t *tape.Tape, o ReqOpt) *Request {
 				d := "$" + n + ": " + g.vars[n]
 				if def, ok := g.defs[n]; ok {
 					d += " = " + def
+				}
+				if g.o.BadDefaults && t.Bool(1, 6) {
+					bad := ""
+					switch strings.TrimSuffix(g.vars[n], "!") {
+					case "Int":
+						bad = `"seven"`
+					case "String":
+						bad = "[1]"
+					case "Boolean":
+						bad = `"yes"`
+					case "Range":
+						bad = `{lo: "x"}`
+					case "[Range]":
+						bad = `[{lo: "x"}]`
+					}
+					if bad != "" {
+						d = "$" + n + ": " + g.vars[n] + " = " + bad
+						delete(g.vals, n)
+						if req.BadDefault == nil {
+							req.BadDefault = map[string]bool{}
+						}
+						req.BadDefault[n] = true
+					}
 				}
 				ds = append(ds, d)
 			}
